@@ -112,6 +112,8 @@ def name_scheme(ck, S, RID):
         by_eval = True
     ck.require(len(wt) == 2, "generateRotatedFileName: expected two name templates, found %d" % len(wt))
 
+    LOCALE_DATES = []
+
     def role_of(fn, a):
         a = deref_local(fn, a)
         from engine.strabs import OWNER
@@ -127,7 +129,19 @@ def name_scheme(ck, S, RID):
         if is_call(a, "QFileInfo::completeSuffix"):
             return "suffix(completeSuffix)"
         if is_call(a, "QDate::toString"):
-            fmt = const_str(a["args"][0]) if a.get("args") else None
+            args_ = [x for x in a.get("args", []) if x.get("k") != "defaultarg"]
+            fmt = const_str(args_[0]) if args_ else None
+            if fmt is None and args_ and const_int(args_[0]) == 1:
+                return "date"                      # Qt::ISODate: yyyy-MM-dd in ASCII digits under every locale
+            if fmt is not None:
+                LOCALE_DATES.append((fn, a, fmt))   # QDate::toString(format) renders with the system locale (Qt 5)
+            return "date" if fmt == "yyyy-MM-dd" else "date(%s)" % fmt
+        if is_call(a, "QLocale::toString") and len(a.get("args", [])) >= 2 and "QDate" in (skip_copies(a["args"][0]).get("type") or ""):
+            fmt = const_str(a["args"][1])
+            cl = skip_copies(a.get("obj"))
+            if is_call(cl, "QLocale::c"):
+                return "date" if fmt == "yyyy-MM-dd" else "date(%s)" % fmt
+            LOCALE_DATES.append((fn, a, fmt))
             return "date" if fmt == "yyyy-MM-dd" else "date(%s)" % fmt
         if a.get("k") == "ref" and a.get("dk") == "param" and a.get("type") == "int":
             return "index"
@@ -216,6 +230,19 @@ def name_scheme(ck, S, RID):
         ln = gg.live(gg.projector(atom_eq(isE, False)))
         ok = gg.site_of(short[2]) in le and gg.site_of(long_[2]) not in le and gg.site_of(long_[2]) in ln and gg.site_of(short[2]) not in ln
         ck.ob(RID, sitestr(fn), ok, "%s: the suffix-less variant iff the active file has no suffix" % nm if ok else "%s selects its name variant differently" % nm, key="%s|variant-selection" % nm)
+
+    # the digits of the date: the readers' \\d classes are ASCII; a date rendered with the system locale's digits (fa_IR, ar_EG, ...) is
+    # written under a name that retention never finds again
+    seen_ld = set()
+    for f_, a_, fmt_ in LOCALE_DATES:
+        if a_.get("id") in seen_ld:
+            continue
+        seen_ld.add(a_.get("id"))
+        ck.ob(RID, sitestr(f_, a_), False, "%s formats the date of the rotated name with %s, i.e. with the digits of the system locale: under a locale with other digits the name does not match the readers' "
+              "\\d{4}-\\d{2}-\\d{2} / is not the documented yyyy-MM-dd, and the file is never counted by retention" % (strip_tmpl(f_.name).split("::")[-1], describe(a_)[:50]),
+              key="%s|locale-digits" % strip_tmpl(f_.name).split("::")[-1])
+    if not LOCALE_DATES:
+        ck.ob(RID, sitestr(gnf), True, "the date in rotated names is formatted independently of the system locale (Qt::ISODate / QLocale::c())", key="generateRotatedFileName|locale-digits")
 
 
 def daily(ck, S, DF, RID="C09-O5"):
